@@ -624,9 +624,11 @@ class Monitor(object):
                     ack[e[1]] = e[2]
         # entries that were overwritten or truncated by a later leader while the node runs are no longer owed
         # (whether such a truncation is legitimate is the business of the C01/C04 monitors)
+        # (the entry that replaced it is owed only once the node acknowledges IT - a process that dies right after the
+        # replacement, before its reply, owes neither)
         for e in log:
             if e[1] in ack and ack[e[1]] != e[2]:
-                ack[e[1]] = e[2]
+                del ack[e[1]]
         if log and not getattr(self, 'in_recovery_step', False):
             for i in [i for i in ack if i > log[-1][1]]:
                 del ack[i]
